@@ -15,6 +15,48 @@ BUILT = {
         "Trusted: the 60-line interval model and renderer (mc/models/intervals.py). Values and spellings outside the stated pools are not covered.",
         "DESIGN.md §4 C01",
     ),
+    "C02": (
+        "bounded exhaustive enumeration of field declarations x generated cells against per-type reference models (interval, glob, regex-subset, date-layout, decimal-text matchers); two API paths compared",
+        "Every declaration from the per-type rule grammars (integer/decimal range structures, choice lists, constants, date layouts, globs and a regex subset up to depth 3/4) x format presets is built on the real field classes; every cell generated from the rule or by one mutation is validated and verdict and native value are compared with hand-written models; integer ranges derived from a length are swept over every integer of up to 5/6 characters; the direct constructor path and the CID-row + cutplace.rows path must agree.",
+        "Trusted: mc/models/fieldmodel.py. Grey zones (malformed thousands grouping, seconds 60-61, exotic integer spellings) are not judged.",
+        "DESIGN.md §4 C02",
+    ),
+    "C03": (
+        "full product enumeration of guard configurations (type x empty flag x length x allowed characters x format) x guard-oriented cells against a guard model",
+        "The complete product of 8 types x empty flag x 6 length declarations x 4 allowed-character ranges x 4 formats is declared on the real classes and probed with empty, blank-only, too short, too long and one-disallowed-character-at-every-position cells; verdict, guard order and the empty value are compared with the model.",
+        "Trusted: guards() in mc/models/fieldmodel.py; for fixed data the allowed ranges always contain the blank.",
+        "DESIGN.md §4 C03",
+    ),
+    "C04": (
+        "explicit-state BFS over tables on the real Reader with product-state merging (implementation snapshot x row model), every edge compared with the model",
+        "Breadth-first search over row sequences for 12 field sets x 4 formats (delimited, fixed, generated ODS and XLSX files) x header 0..2: every row shape (accepted rows, one bad cell per column, two bad cells, short/long/empty rows) is appended in every distinct product state; each edge re-runs the table on a fresh Reader and compares verdicts, error class, row number incl. header, first offending column, field and input name, counters and end verdict with the row model.",
+        "Trusted: mc/models/rowmodel.py composed from the per-field model; the ODS producer mc/models/odf.py and xlsxwriter as independent file producers.",
+        "DESIGN.md §4 C04",
+    ),
+    "C05": (
+        "explicit-state BFS over row sequences on the real Reader (all three error modes) with product-state merging, compared with dict/set models of the checks",
+        "BFS over row sequences (depth 4-6 quick, 6-10 thorough) for key sets of 1..3 fields, every comparison operator x thresholds 0..4, both declaration orders and two IsUnique checks; each edge is run in yield, continue and raise mode on fresh readers; rejections, first-occurrence back references and end-of-data verdicts are compared with the model.",
+        "Trusted: rowmodel.Run (a dict and a set). Rows vetoed by an earlier-declared check do not reach later checks.",
+        "DESIGN.md §4 C05",
+    ),
+    "C06": (
+        "explicit-state BFS over tables with a relational (differential) oracle between the three error modes, plus exhaustive container-fault enumeration at every row boundary",
+        "For every table reached by BFS (C04 configurations plus CIDs with end-of-data checks, 4 formats) the outputs of cutplace.rows in yield/continue/raise mode and the Reader counters are compared with each other; container faults (undecodable byte, unterminated quote, record cut short, truncated / directory-less ODS and XLSX archives) are injected at every row / every 64th (thorough: every) byte and must end every mode with a DataFormatError.",
+        "Differential oracle: no expected values are hand-written. Rows before a container fault may or may not be produced.",
+        "DESIGN.md §4 C06",
+    ),
+    "C07": (
+        "full product enumeration of header x rows x limit x bad-row position x API against the closed-form oracle of the statement",
+        "All combinations of header 0..3, 0..6 data rows, limit none/0..rows+header+1, one bad row at every position (also inside the header, 4 kinds) for delimited and fixed data are run through cutplace.rows in 3 modes, cutplace.validate and applications.main --until; a rejection must be reported iff position > header and (no limit or position <= limit) and all data rows must be returned.",
+        "Trusted: the closed formula. In fixed format a bad row is a bad cell only.",
+        "DESIGN.md §4 C07",
+    ),
+    "C08": (
+        "explicit-state BFS over operation histories on one shared CID to the fixpoint of the canonical CID state; differential oracle against a freshly loaded CID",
+        "22 operations (reads in 3 modes, abandoned and never-closed reads, validate, writes with/without close, CutplaceApp.validate) are applied in every distinct canonical state of the shared CID (structural snapshot of its check objects); the search reaches the fixpoint (23 states), so histories of every length are covered; every observation must equal that of the same operation on a fresh CID; histories up to depth 2/3 are also enumerated without merging.",
+        "Trusted: the structural snapshot (mc/snapshot.py) as state identity; held generators are closed by the harness.",
+        "DESIGN.md §4 C08",
+    ),
 }
 
 NOT_YET = "check not built yet in this session; the design (DESIGN.md §4) decides it by bounded exhaustive exploration"
